@@ -6,6 +6,10 @@ r = x(R) - n, which in general is not on the curve: ECPubKey.set fails and the e
 libsecp256k1 answers id 2/3. Such a signature cannot be produced by signing (the nonce would have to be the discrete
 logarithm of a chosen point), so this script takes a valid signature with x(R) = n + 7 — valid for the key libsecp256k1
 recovers from it — and stubs the two secret-dependent inputs of the search (ecdsa_sign, ec_pubkey_create).
+NOTE (round 6): the search loop was a genuine defect (C08-KF2) and is repaired by fixes/c08-signrec.diff (the id is now
+computed from the nonce point, there is no loop any more). On a tree WITH the fix the last line prints a signature of the stub
+key instead of raising, and py.ecdsa_recover(sig64 + b"\x00", z) raises ValueError (it raised AttributeError). On a tree
+without it (e.g. `git stash` / the parent of the fix commit) the script reproduces the AttributeError leaving the loop.
 Run: EMBIT_REPO=<repo worktree> /venv/bin/python harness/demo_c08x_recid_search.py
 """
 import sys
